@@ -86,6 +86,18 @@ M = [
  ("c15_uniform_area_draw_scaled_late", ["C15"], "src/geom3/mesh/sampling.rs",
   "                .unwrap_or_else(|i| i);", "                .unwrap_or_else(|i| i.saturating_sub(0)).min(cumulative_areas.len() - 1);",
   "harmless clamp: expected silent"),
+ ("c15_nearest_bound_next_up", ["C15"], "src/common/kd_tree.rs",
+  "        let bound = (last.distance * (1.0 + 1e-12)).max(f64::MIN_POSITIVE);", "        let bound = last.distance.next_up();",
+  "re-introduces the one-ulp bound of the first k-nearest repair: neighbours tied at the k-th distance are lost when kiddo's chunk and remainder paths round differently"),
+ ("c15_nearest_bound_zero_distance", ["C15"], "src/common/kd_tree.rs",
+  "        let bound = (last.distance * (1.0 + 1e-12)).max(f64::MIN_POSITIVE);", "        let bound = last.distance * (1.0 + 1e-12);",
+  "bound collapses to zero when the k-th neighbour is at distance zero"),
+ ("c15_exact_breakpoint_goes_to_next_face", ["C15"], "src/geom3/mesh/sampling.rs",
+  "                .unwrap_or_else(|i| i);", "                .map_or_else(|i| i, |i| i + 1);",
+  "harmless: a draw landing exactly on an interior breakpoint picks the next face (measure zero, still on the surface); the last breakpoint cannot be hit because r < 1: expected silent although injected Boundary words reach the branch"),
+ ("c15_barycentric_divides_by_sqrt_r1", ["C15"], "src/geom3/mesh/sampling.rs",
+  "            let c = r1.sqrt() * r2;", "            let c = r1 * r2 / r1.sqrt();",
+  "algebraically the same weight, NaN when the draw is exactly 0.0: only an injected Zero word reaches it"),
  ("c20_best_fit_no_roll", ["C20"], "src/geom3/mesh/conformal.rs",
   "        let insert_i = ((i + col0.len()) - 1) % col0.len();", "        let insert_i = i;",
   "boundary positions shifted by one vertex"),
